@@ -659,8 +659,15 @@ func (p *Primary) getWALEntriesFromSequence(fromSequence uint64) ([]*wal.Entry, 
 	// Limit the number of entries to return to avoid overwhelming the network
 	maxEntriesToReturn := 100
 	if len(allEntries) > maxEntriesToReturn {
-		allEntries = allEntries[:maxEntriesToReturn]
-		log.Info("Limited entries to %d for network efficiency", maxEntriesToReturn)
+		// Never cut inside a transaction: all entries of one wal.AppendBatch share a
+		// sequence number and the replica acknowledges by number, so the entries behind
+		// the cut would never be sent again
+		end := maxEntriesToReturn
+		for end < len(allEntries) && allEntries[end].SequenceNumber == allEntries[end-1].SequenceNumber {
+			end++
+		}
+		allEntries = allEntries[:end]
+		log.Info("Limited entries to %d for network efficiency", end)
 	}
 
 	log.Info("Returning %d entries starting from sequence %d", len(allEntries), fromSequence)
